@@ -189,7 +189,9 @@ PolarGrid GMGPolar::createFinestGrid()
     PolarGrid finest_grid;
 
     if (load_grid_file_) {
-        assert(!file_grid_radii_.empty() && !file_grid_angles_.empty());
+        if (file_grid_radii_.empty() || file_grid_angles_.empty()) {
+            throw std::invalid_argument("load_grid_file requires file_grid_radii and file_grid_angles.");
+        }
         finest_grid = PolarGrid(file_grid_radii_, file_grid_angles_);
     }
     else {
